@@ -14,6 +14,7 @@ import (
 	"strconv"
 	"strings"
 	"sync"
+	"sync/atomic"
 	"time"
 
 	"verif/internal/core"
@@ -1362,6 +1363,167 @@ func c15SlowPassthrough(r *core.Run, bins bridgeBins) ([]*core.Proc, func()) {
 	return []*core.Proc{back}, finish
 }
 
+// ---- backend outage history --------------------------------------------------------------------
+
+type c15OutageResult struct {
+	err      error
+	problem  string // what the clients after the recovery saw go wrong ("" = all echoed intact)
+	kind     string // stream-incomplete | bytes-altered
+	attempts int
+	after    int
+	detail   map[string]interface{}
+}
+
+// c15Outage plays one history on fresh processes: the frontend's bridge backend is down while
+// `attempts` clients connect (and write a little); the frontend can only drop them. Then the backend
+// comes up, and 8 new clients each write 64 KiB through the bridge to an echoing TCP server and must
+// read the same 64 KiB back within the progress bound.
+func c15Outage(r *core.Run, bins bridgeBins, suffix string, attempts int, count bool) (out c15OutageResult) {
+	out.attempts, out.after = attempts, 8
+	echo, err := bridgeNewTCPServer(func(c *net.TCPConn, _ int) {
+		defer c.Close()
+		io.Copy(c, c)
+	})
+	if err != nil {
+		out.err = err
+		return
+	}
+	defer echo.Close()
+	backPort := core.FreePort() // nothing listens here during the outage
+	front, fp, err := bridgeStartProc(r, "bridge-frontend"+suffix, bins.Front, func(port int) []string {
+		return []string{"-frontend-port", strconv.Itoa(port), "-backend", fmt.Sprintf("ws://127.0.0.1:%d", backPort)}
+	})
+	if err != nil {
+		out.err = err
+		return
+	}
+	defer front.Kill()
+	faddr := fmt.Sprintf("127.0.0.1:%d", fp)
+	// ---- the outage
+	var dropped, hung, refused atomic.Int64
+	var wg sync.WaitGroup
+	sem := make(chan struct{}, 40)
+	t0 := time.Now()
+	for i := 0; i < attempts; i++ {
+		wg.Add(1)
+		sem <- struct{}{}
+		go func(i int) {
+			defer wg.Done()
+			defer func() { <-sem }()
+			c, err := net.DialTimeout("tcp", faddr, 5*time.Second)
+			if err != nil {
+				refused.Add(1)
+				return
+			}
+			defer c.Close()
+			if i%3 != 2 {
+				c.SetWriteDeadline(time.Now().Add(2 * time.Second))
+				c.Write(tokBytes("outage", strconv.Itoa(i), 1+i%700))
+			}
+			if i%5 == 4 {
+				return // leaves at once
+			}
+			c.SetReadDeadline(time.Now().Add(2 * time.Second))
+			buf := make([]byte, 256)
+			for {
+				if _, err := c.Read(buf); err != nil {
+					if bridgeIsTimeout(err) {
+						hung.Add(1) // observed only
+					} else {
+						dropped.Add(1)
+					}
+					return
+				}
+			}
+		}(i)
+	}
+	wg.Wait()
+	outageSecs := time.Since(t0).Seconds()
+	// ---- recovery
+	back, err := r.StartProc("bridge-backend"+suffix, bins.Back, []string{"-frontend-port", strconv.Itoa(backPort), "-backend-port", strconv.Itoa(echo.Port)})
+	if err != nil {
+		out.err = err
+		return
+	}
+	defer back.Kill()
+	for deadline := time.Now().Add(20 * time.Second); !bridgeListening(back.Cmd.Process.Pid, backPort); time.Sleep(10 * time.Millisecond) {
+		if !back.Alive() || time.Now().After(deadline) {
+			out.err = fmt.Errorf("backend did not come up on port %d: %s", backPort, core.Trunc(back.Log(), 600))
+			return
+		}
+	}
+	// ---- new clients
+	const n = 64 << 10
+	bound := 15 * time.Second
+	problems := make([]string, out.after)
+	kinds := make([]string, out.after)
+	for i := 0; i < out.after; i++ {
+		wg.Add(1)
+		go func(i int) {
+			defer wg.Done()
+			fail := func(kind, f string, a ...interface{}) {
+				kinds[i], problems[i] = kind, fmt.Sprintf("client %d: ", i)+fmt.Sprintf(f, a...)
+			}
+			c, err := net.DialTimeout("tcp", faddr, 5*time.Second)
+			if err != nil {
+				fail("stream-incomplete", "cannot connect to the frontend: %v", err)
+				return
+			}
+			defer c.Close()
+			data := make([]byte, n)
+			bridgeNewStream(r.Seed, 5000000+i, 'c', n).Next(data)
+			werr := make(chan error, 1)
+			go func() {
+				c.SetWriteDeadline(time.Now().Add(bound))
+				_, err := c.Write(data)
+				werr <- err
+			}()
+			got := make([]byte, 0, n)
+			buf := make([]byte, 32<<10)
+			for len(got) < n {
+				c.SetReadDeadline(time.Now().Add(bound))
+				k, err := c.Read(buf)
+				got = append(got, buf[:k]...)
+				if err != nil {
+					fail("stream-incomplete", "%d of %d echoed bytes came back, then %v (its write: %v)", len(got), n, err, <-werr)
+					return
+				}
+			}
+			if !bytes.Equal(got, data) {
+				off := 0
+				for got[off] == data[off] {
+					off++
+				}
+				fail("bytes-altered", "the echo differs from what was written at offset %d", off)
+			}
+		}(i)
+	}
+	wg.Wait()
+	for i, p := range problems {
+		if p != "" && out.problem == "" {
+			out.problem, out.kind = p, kinds[i]
+		}
+	}
+	nbad := 0
+	for _, p := range problems {
+		if p != "" {
+			nbad++
+		}
+	}
+	if nbad > 1 {
+		out.problem += fmt.Sprintf(" (and %d more of the %d clients likewise)", nbad-1, out.after)
+	}
+	out.detail = map[string]interface{}{"outage_attempts": attempts, "outage_seconds": float64(int(outageSecs*10)) / 10, "outage_clients_dropped_by_frontend": dropped.Load(),
+		"outage_clients_left_hanging_2s(observed_only)": hung.Load(), "outage_clients_refused": refused.Load(), "clients_after_recovery": out.after, "of_those_failed": nbad}
+	if count {
+		r.Cases("backend-outage|client-dropped", attempts)
+		r.Cases("backend-outage|after-recovery|64KiB-echo", out.after)
+		r.Set("backend_outage_history", out.detail)
+	}
+	judgeProcs(r, true, front, back)
+	return out
+}
+
 // ---- E2: in-process cases (worker) -------------------------------------------------------
 
 type c15E2Case struct {
@@ -1510,19 +1672,37 @@ func c15E2(r *core.Run, bin string) {
 
 // C15 — the TCP bridge carries byte streams intact in both directions.
 func C15(r *core.Run) {
-	r.SetRule("E1: harness TCP clients -> real tcp-bridge-frontend -> real tcp-bridge-backend -> harness TCP server, rounds of 1/4/16/48 concurrent connections, both directions at once, each direction an independent stream header+PRNG(seed,conn,dir) written with sizes {1,2,1023,1024,1025,4096,32768,65537,random} and read with buffers {1,7,1024,65536}; every read is compared with the regenerated stream (prefix), length+SHA-256 at the end; plus one connection per direction whose receiver stalls 13-14 s while 32-48 MiB are pushed at it (flow control must hold the sender, every byte must arrive) and a connection that lives 32 s (thorough: both directions, also 63 s) with a trickling receiver so that data is in flight all the time; and request/response connections (one message at a time, the peer waits for all of it before answering) with message sizes on and around multiples of 32 KiB, including connections on which the server speaks first (greetings of 1, 275, 65536 bytes) while the client only reads; class = (concurrency, who speaks first, per direction write size/read buffer/length class). Passthrough: grammar-generated requests of C02 plus websocket upgrades on other paths / plain and other-protocol requests on the streaming path through the backend binary to a raw recording backend under the request fidelity oracle, plus three uploads whose bodies take 11-14 s to arrive (1 KiB/s, a 10.7 s pause, chunked) and one response produced over 14 s (observed only). E2: connection.Handler/DialWebsocket/WebsocketNetConn in-process with empty writes, 1-byte reads, raw gorilla peers interleaving binary/ping/pong frames, small Reads followed by io.Copy / bufio.Reader.WriteTo on the same connection, single writes up to 16 MiB")
+	r.SetRule("E1: harness TCP clients -> real tcp-bridge-frontend -> real tcp-bridge-backend -> harness TCP server, rounds of 1/4/16/48 concurrent connections, both directions at once, each direction an independent stream header+PRNG(seed,conn,dir) written with sizes {1,2,1023,1024,1025,4096,32768,65537,random} and read with buffers {1,7,1024,65536}; every read is compared with the regenerated stream (prefix), length+SHA-256 at the end; plus one connection per direction whose receiver stalls 13-14 s while 32-48 MiB are pushed at it (flow control must hold the sender, every byte must arrive) and a connection that lives 32 s (thorough: both directions, also 63 s) with a trickling receiver so that data is in flight all the time; and request/response connections (one message at a time, the peer waits for all of it before answering) with message sizes on and around multiples of 32 KiB, including connections on which the server speaks first (greetings of 1, 275, 65536 bytes) while the client only reads; class = (concurrency, who speaks first, per direction write size/read buffer/length class). Passthrough: grammar-generated requests of C02 plus websocket upgrades on other paths / plain and other-protocol requests on the streaming path through the backend binary to a raw recording backend under the request fidelity oracle, plus three uploads whose bodies take 11-14 s to arrive (1 KiB/s, a 10.7 s pause, chunked) and one response produced over 14 s (observed only); a history in which the bridge backend is down during 600 (thorough 2000) client attempts, comes back, and 8 new clients must then echo 64 KiB intact. E2: connection.Handler/DialWebsocket/WebsocketNetConn in-process with empty writes, 1-byte reads, raw gorilla peers interleaving binary/ping/pong frames, small Reads followed by io.Copy / bufio.Reader.WriteTo on the same connection, single writes up to 16 MiB")
 	r.Assume("passthrough: well-formed requests only (C02 generator); hop-by-hop fields are legitimately removed, upgrade requests keep Connection/Upgrade; X-Forwarded-For may gain the proxy's client address after the sender's values; only HTTP/1.1 towards the backend binary (h2c not exercised)")
 	r.Assume("a stream that stops making progress for 20 s (E1) / 10 s (E2) counts only if the same connection plan stalls again when re-run alone")
 	bins := bridgeBuild(r)
 	worker := r.MustBuild(r.BuildWorker())
 
 	slowProcs, finishSlow := c15SlowPassthrough(r, bins) // runs in the background for about 15 s
+	outageDone := make(chan c15OutageResult, 1)
+	go func() { outageDone <- c15Outage(r, bins, "-outage0", r.Pick(600, 2000), true) }() // background, a few seconds
 	procs, finishStalled := c15Streams(r, bins)
 	procs = append(procs, slowProcs...)
 	procs = append(procs, c15Passthrough(r, bins)...)
 	c15E2(r, worker)
 	finishSlow()
 	finishStalled()
+	// ---- backend outage, recovery, new clients
+	if o := <-outageDone; o.err != nil {
+		r.Broken("outage topology: " + o.err.Error())
+	} else if o.problem != "" {
+		// a missed progress bound: the whole history is repeated alone on fresh processes
+		again := c15Outage(r, bins, "-outage1", r.Pick(600, 2000), false)
+		switch {
+		case again.err != nil:
+			r.Broken("outage topology: " + again.err.Error())
+		case again.problem == "":
+			r.Inconclusive("after-outage clients failed once (" + o.problem + ") but not when the history was repeated alone on fresh processes")
+		default:
+			r.Violate("C15:"+again.kind+":after-backend-outage", fmt.Sprintf("history: the bridge backend is down while %d clients connect to the frontend (each attempt fails), then the backend is started, then %d new clients each write 64 KiB to an echoing TCP server: %s; first run: %s (repeated alone on fresh processes)",
+				again.attempts, again.after, again.problem, o.problem), nil, map[string]interface{}{"first": o.detail, "second": again.detail})
+		}
+	}
 
 	judgeProcs(r, true, procs...)
 	killAll(procs...)
